@@ -10,6 +10,8 @@ import Proofs.C19_PerfOld
 import Proofs.C19_Flatten
 import Proofs.C19_Stream
 import Proofs.C19_Lines
+import Proofs.C19_Objects
+import Proofs.C19_Source
 namespace Atomman.C19
 open Atomman List
 set_option linter.unusedSimpArgs false
@@ -754,5 +756,147 @@ example : flattenTables "last".toList
      ⟨["Step".toList, "Press".toList], [["10".toList, "7".toList]]⟩]
     = .ok ⟨["Step".toList, "Temp".toList, "Press".toList],
         [["0".toList, "1.5".toList, "nan".toList], ["10".toList, "nan".toList, "7".toList]]⟩ := by decide
+
+/-! ## round 6: the `Simulation` records as objects -/
+
+/-- **record_keys**: the keys of a record of the log are `thermo`, followed by `performance` exactly when a timing
+    table was assigned to it; no key twice. -/
+theorem record_keys (s : Sim) :
+    s.keys = "thermo" :: (if s.perf.isSome then ["performance"] else []) ∧ s.keys.Nodup := by
+  refine ⟨Sim.keys_eq s, ?_⟩
+  rw [Sim.keys_eq]
+  cases s.perf.isSome <;> decide
+
+/-- **record_getitem_iff**: `sim[key]` refuses (KeyError) exactly for keys other than `thermo` and — when a timing table
+    was assigned — `performance`; the tables behind the keys are the ones that were assigned. -/
+theorem record_getitem_iff (s : Sim) (key : String) :
+    (s.obj.getItemRefuses key = true ↔ key ≠ "thermo" ∧ (key ≠ "performance" ∨ s.perf = none)) ∧
+      s.obj.thermo = some s.thermo ∧ s.obj.perf = s.perf := by
+  refine ⟨?_, Sim.obj_thermo s⟩
+  have hk : s.obj.keys = s.keys := rfl
+  unfold SimObj.getItemRefuses
+  rw [hk, Sim.keys_eq]
+  cases hp : s.perf with
+  | none => simp
+  | some p => simp
+
+/-- **setter_again**: assigning a table a second time replaces the value and does not list the key twice. -/
+theorem setter_again (o : SimObj) (a b : Table) (p q : Perf) :
+    ((o.setThermo a).setThermo b).keys = (o.setThermo a).keys ∧ ((o.setThermo a).setThermo b).thermo = some b ∧
+    ((o.setPerf p).setPerf q).keys = (o.setPerf p).keys ∧ ((o.setPerf p).setPerf q).perf = some q :=
+  ⟨(setThermo_again o a b).1, (setThermo_again o a b).2, (setPerf_again o p q).1, (setPerf_again o p q).2⟩
+
+/-- **setter_keys_nodup**: whatever sequence of assignments, no key is listed twice. -/
+theorem setter_keys_nodup (o : SimObj) (h : o.keys.Nodup) (t : Table) (p : Perf) :
+    (o.setThermo t).keys.Nodup ∧ (o.setPerf p).keys.Nodup := ⟨setThermo_nodup o t h, setPerf_nodup o p h⟩
+
+/-- **flatten_result_object**: the object `flatten` returns has the merged table, no timing table and the one key
+    `thermo`. -/
+theorem flatten_result_object (t : Table) :
+    (flattenObj t).keys = ["thermo"] ∧ (flattenObj t).thermo = some t ∧ (flattenObj t).perf = none := ⟨rfl, rfl, rfl⟩
+
+example : (Sim.obj ⟨⟨["Step".toList], []⟩, some ⟨[], []⟩⟩).getItemRefuses "performance" = false := by decide
+example : (Sim.obj ⟨⟨["Step".toList], []⟩, none⟩).getItemRefuses "performance" = true := by decide
+
+/-! ## round 6: the merge loop of `flatten` as coded (style looked at once per merged run) -/
+
+section FlattenStyle
+variable {α : Type} (step : α → Int)
+
+/-- **flattenStyle_first / _last / _all**: with a supported style the loop of the source (`Gen.LogSrc.merge`, proved equal
+    to `mergeStyle`) computes the folds the `flatten_first…` / `flatten_last…` / `flatten_all` theorems are about. -/
+theorem flattenStyle_first (runs : List (List α)) : flattenStyle step "first".toList runs =
+    match flattenFirst step runs with | none => .error .index | some r => .ok r := by
+  cases runs with
+  | nil => rfl
+  | cons t ts => exact mergeLoop_of step _ _ (mergeStyle_first step) t ts
+
+theorem flattenStyle_last (runs : List (List α)) : flattenStyle step "last".toList runs =
+    match flattenLast step runs with | none => .error .index | some r => .ok r := by
+  cases runs with
+  | nil => rfl
+  | cons t ts => exact mergeLoop_of step _ _ (mergeStyle_last step) t ts
+
+theorem flattenStyle_all (runs : List (List α)) : flattenStyle step "all".toList runs =
+    match flattenAll runs with | none => .error .index | some r => .ok r := by
+  cases runs with
+  | nil => rfl
+  | cons t ts => exact mergeLoop_of step _ _ (mergeStyle_all step) t ts
+
+/-- **flattenStyle_refuses_iff**: the loop raises `ValueError` exactly when the style is unsupported AND there is a second
+    record to merge; `IndexError` exactly on an empty selection; nothing else is raised by the loop. -/
+theorem flattenStyle_refuses_iff (style : Str) (runs : List (List α)) :
+    (flattenStyle step style runs = .error .value ↔ ¬ IsStyle style ∧ 2 ≤ runs.length) ∧
+    (flattenStyle step style runs = .error .index ↔ runs = []) ∧
+    (∀ e, flattenStyle step style runs = .error e → e = .value ∨ e = .index) := by
+  cases runs with
+  | nil => simp [flattenStyle]
+  | cons t ts =>
+    cases ts with
+    | nil => simp [flattenStyle, mergeLoop]
+    | cons t' ts =>
+      by_cases hs : IsStyle style
+      · obtain ⟨f, hf⟩ : ∃ f : List α → List α → List α, ∀ m t, mergeStyle step style m t = .ok (f m t) := by
+          rcases hs with rfl | rfl | rfl
+          · exact ⟨_, mergeStyle_first step⟩
+          · exact ⟨_, mergeStyle_last step⟩
+          · exact ⟨_, mergeStyle_all step⟩
+        simp [flattenStyle, mergeLoop_of step style f hf, hs]
+      · simp [flattenStyle, mergeLoop_bad step style hs, hs]
+
+/-- **flattenStyle_single**: one selected record is returned as it is, whatever the style string. -/
+theorem flattenStyle_single (style : Str) (t : List α) : flattenStyle step style [t] = .ok t := rfl
+
+example : flattenStyle (fun r : Int × Nat => r.1) "latest".toList [[(0, 0)], [(1, 1)]] = .error .value := by decide
+example : flattenStyle (fun r : Int × Nat => r.1) "latest".toList [[(0, 0)]] = .ok [(0, 0)] := by decide
+end FlattenStyle
+
+/-! ## round 6: call forms (arguments left out) and the end-to-end statements -/
+
+/-- **call_defaults**: `read(x)` appends, `Log(x)` is a read into a new object, `flatten()` is `flatten('last')` over all
+    records — with the defaults regenerated from the signatures of the source. -/
+theorem call_defaults (st : LogState) (lines : List Str) (a b : Option Int) :
+    readCall st none lines = readLog st true lines ∧
+    ctorCall (some lines) = readLog LogState.empty true lines ∧ ctorCall none = .ok LogState.empty ∧
+    flattenCall st none a b = flattenCall st (some "last".toList) a b := ⟨rfl, rfl, rfl, rfl⟩
+
+/-- **ctor_render**: `Log(text)` of a log printed from a specification: exactly the printed runs (token tables, one
+    record per run in order, each with the single key `thermo`), the version string and its date. -/
+theorem ctor_render (S : LogSpec) (h : S.WF) (hperf : ∀ l ∈ renderLog S, PerfQuiet l)
+    (d : Date) (hd : dateOf S.version = .ok d) :
+    ∃ st, ctorCall (some (renderLog S)) = .ok st ∧
+      st.sims.map Sim.thermo = S.runs.map RunSpec.table ∧ (∀ s ∈ st.sims, s.keys = ["thermo"]) ∧
+      st.version = some S.version ∧ st.date = some d := by
+  refine ⟨_, read_render S h hperf d hd LogState.empty true, ?_, ?_, rfl, rfl⟩
+  · simp [startState, LogState.empty, Function.comp_def]
+  · intro s hs
+    simp only [startState, LogState.empty, if_true, nil_append, mem_map] at hs
+    obtain ⟨r, _, rfl⟩ := hs
+    rfl
+
+/-- **ctor_render_text**: the same from the TEXT of the log (lines joined by `\n`, the model splitting it itself). -/
+theorem ctor_render_text (S : LogSpec) (h : S.WF) (hperf : ∀ l ∈ renderLog S, PerfQuiet l)
+    (hnl : ∀ l ∈ renderLog S, '\n' ∉ l) (d : Date) (hd : dateOf S.version = .ok d) :
+    ∃ st, readText LogState.empty true (joinLines (renderLog S)) = .ok st ∧
+      st.sims.map Sim.thermo = S.runs.map RunSpec.table ∧ st.version = some S.version ∧ st.date = some d := by
+  have hne : renderLog S ≠ [] := by simp [renderLog, Layout.lines, LogSpec.toLayout]
+  rw [readText_joinLines _ _ _ hne hnl]
+  obtain ⟨st, h1, h2, _, h3, h4⟩ := ctor_render S h hperf d hd
+  exact ⟨st, h1, h2, h3, h4⟩
+
+/-- **read_then_flatten_all**: reading a well-formed layout into a new log and flattening it with style `all` over the
+    model's rows keeps every printed row of every run in printed order (composition of `read_layout` and
+    `flatten_all` through the loop of the source). -/
+theorem read_then_flatten_all (L : Layout) (h : L.WF) (st : LogState) (hne : L.runs ≠ [])
+    (hr : readLog LogState.empty true L.lines = .ok st) :
+    flattenStyle (fun r : List Str => (0 : Int)) "all".toList (st.sims.map (fun s => s.thermo.rows)) =
+      .ok (L.runs.flatMap (fun r => (nonBlank r.body).map splitWs)) := by
+  have e := read_layout L h LogState.empty st true hr
+  simp only [if_true, LogState.empty, map_nil, nil_append] at e
+  have e2 : st.sims.map (fun s => s.thermo.rows) = L.runs.map (fun r => (nonBlank r.body).map splitWs) := by
+    have := congrArg (map Table.rows) e
+    simpa [map_map, Function.comp_def, Run.table] using this
+  rw [e2, flattenStyle_all, flatten_all _ (by simpa using hne)]
+  simp [flatMap_def]
 
 end Atomman.C19
